@@ -41,9 +41,13 @@ def main():
         paths = sorted(glob.glob("/tmp/benign/C*/[1-9]/patch.diff"))
     paths = [p for p in paths if only in p]
     n1 = n2 = 0
+    record = {}
     with ThreadPoolExecutor(max_workers=8) as ex:
         for path, out in ex.map(one, paths):
             tag = "/".join(path.split("/")[-3:-1])
+            if out is not None and "--kept" in sys.argv:
+                # which checks look at the files this patch touches is not known here: record every check's verdict
+                record[path.split("/")[-2]] = {pid: (out[pid][0] if pid in out else 0) for pid in PIDS}
             if out is None:
                 print("%-12s patch does not apply" % tag)
                 continue
@@ -56,6 +60,13 @@ def main():
                 for l in lines[:8]:
                     print("        " + l)
     print("false alarms: %d   analysis errors: %d   patches: %d" % (n1, n2, len(paths)))
+    if "--kept" in sys.argv and not only:
+        # keep only the checks whose verdict is worth re-checking: the property's own check and any check that did not stay silent
+        slim = {}
+        for sid, e in record.items():
+            own = sid.split("-")[0]
+            slim[sid] = {pid: rc for pid, rc in e.items() if pid == own or rc != 0}
+        json.dump(slim, open(os.path.join(HERE, "selftest", "benign", "expect.json"), "w"), indent=1, sort_keys=True)
 
 
 if __name__ == "__main__":
